@@ -70,6 +70,7 @@ fn main() {
             }
             0
         }
+        "list-adv-failures" => driver::list_adv_failures(),
         "child" => vh::props::big::child_main(&args[2..]),
         "replay" => {
             if args.len() < 3 {
